@@ -4,6 +4,7 @@ import (
 	"encoding/json"
 	"fmt"
 	"os"
+	"sort"
 	"time"
 )
 
@@ -190,6 +191,43 @@ func init() {
 		for idx := cfg.From; idx < cfg.To; idx += cfg.Stride {
 			c := GenC11Input(cfg.Seed, idx, cfg.Tier)
 			fmt.Printf("%d %s %s\n", idx, c.Source, c.Input)
+		}
+		return 0
+	}
+}
+
+func init() {
+	extraCommands["errhist"] = func(cfg WorkerCfg) int {
+		hist := map[string]int{}
+		for idx := cfg.From; idx < cfg.To; idx++ {
+			p := GenSchedPlan(cfg.Seed, idx, "C13")
+			h := runHistory(p, nil)
+			for t := range h.Recs {
+				for _, r := range h.Recs[t] {
+					if r.Out.HasErr {
+						e := r.Out.Err
+						if len(e) > 60 {
+							e = e[:60]
+						}
+						hist[r.Out.Op+": "+e]++
+					}
+				}
+			}
+		}
+		type kv struct {
+			k string
+			v int
+		}
+		var l []kv
+		for k, v := range hist {
+			l = append(l, kv{k, v})
+		}
+		sort.Slice(l, func(i, j int) bool { return l[i].v > l[j].v })
+		for i, e := range l {
+			if i > 25 {
+				break
+			}
+			fmt.Println(e.v, e.k)
 		}
 		return 0
 	}
